@@ -24,6 +24,28 @@ Definition endpoint_of (p : string) : option endpoint :=
   else if String.eqb p "/disasm" then Some WDisasm
   else None.   (* /download does not generate a report *)
 
+(* option assignments (configure on the process-wide state, as SetVariableDefault does) between
+   web requests: the state moves only at "set" steps *)
+Fixpoint run_websrc (e : env) (cur : config) (steps : list term) : list term :=
+  match steps with
+  | [] => []
+  | st :: r =>
+      if String.eqb (gs (gn st 0)) "set" then
+        let c' := match configure (e_pf e) (e_fields e) cur (gs (gn st 1)) (gs (gn st 2)) with
+                  | Ok c1 => c1
+                  | Err _ => cur
+                  end in
+        TL [TS "s"; of_cfg c'] :: run_websrc e c' r
+      else
+        (match endpoint_of (gs (gn st 1)) with
+         | Some ep => match web_request_cfg e cur ep (values_of (gn st 2)) with
+                      | Some _ => TL [TZ 0; TZ 1]
+                      | None => TL [TZ 400; TZ 1]
+                      end
+         | None => TL [TZ 200; TZ 1]
+         end) :: run_websrc e cur r
+  end.
+
 Definition run_C10 (i : term) : term :=
   let op := gs (gn i 0) in
   if String.eqb op "sess" then
@@ -44,6 +66,10 @@ Definition run_C10 (i : term) : term :=
                           | None => TL [TZ 200; TZ 1]
                           end) (gl (gn i 3)));
         TZ 1; TZ 1]
+  else if String.eqb op "websrc" then
+    let e := {| e_fields := config_fields; e_pf := pf_of (gn i 1); e_commands := pprof_commands; e_help := config_help_keys;
+                e_types := []; e_default_type := "" |} in
+    TL [TL (run_websrc e (cfg_of (gn i 2)) (gl (gn i 3))); TZ 1]
   else TL [TS "unknown-op"].
 
 (* web: status 0 in the model = "a report is generated" (its own errors, e.g. a bad regexp, are
@@ -57,9 +83,23 @@ Fixpoint web_eqv (m o : list term) : bool :=
   | _, _ => false
   end.
 
+(* websrc: "s" steps (option state after an assignment) are compared exactly, requests as for web *)
+Fixpoint websrc_eqv (m o : list term) : bool :=
+  match m, o with
+  | [], [] => true
+  | a :: m', b :: o' =>
+      (if String.eqb (gs (gn a 0)) "s" then term_eqb a b
+       else (if gz (gn a 0) =? 0 then negb (gz (gn b 0) =? 599) else gz (gn a 0) =? gz (gn b 0))
+            && (gz (gn a 1) =? gz (gn b 1)))
+      && websrc_eqv m' o'
+  | _, _ => false
+  end.
+
 Definition eqv_C10 (i m o : term) : bool :=
   if String.eqb (gs (gn i 0)) "web"
   then web_eqv (gl (gn m 0)) (gl (gn o 0)) && term_eqb (gn m 1) (gn o 1) && term_eqb (gn m 2) (gn o 2)
+  else if String.eqb (gs (gn i 0)) "websrc"
+  then websrc_eqv (gl (gn m 0)) (gl (gn o 0)) && term_eqb (gn m 1) (gn o 1)
   else term_eqb m o.
 
 (* ---- the specification, evaluated on the implementation's observable *)
@@ -81,6 +121,9 @@ Definition spec_C10 (i o : term) : bool :=
   if String.eqb op "sess" then spec_lines (gn o 0) (gl (gn o 1)) && gb (gn o 2)
   else if String.eqb op "web" then
     forallb (fun r => gb (gn r 1)) (gl (gn o 0)) && gb (gn o 1) && gb (gn o 2)
+  else if String.eqb op "websrc" then
+    (* every request answered as in a fresh process with the same options; profile untouched *)
+    forallb (fun r => String.eqb (gs (gn r 0)) "s" || gb (gn r 1)) (gl (gn o 0)) && gb (gn o 1)
   else true.
 
 Definition cls_C10 (i : term) : list Z := [].
